@@ -61,6 +61,21 @@ func c13Shapes(s c13Spec) []string {
 	case s.first == 2:
 		out = []string{"vK", "vKK", "vKKK", "vKKKK"}
 	}
+	if ev.Thorough() {
+		// two more sizes of every shape family
+		switch {
+		case s.first == 1 && s.last == -1 && s.step == 1:
+			out = append(out, "KKKKK", "KKKKKKK")
+		case s.first == 1 && s.last == -2:
+			out = append(out, "KKKKKv", "KKKKKKKv")
+		case s.step == 2:
+			out = append(out, "KvKvKvKvKv", "KvKvKvKvKvKvKv")
+		case s.first == 2:
+			out = append(out, "vKKKKK", "vKKKKKKK")
+		case s.first == 1 && s.last == 1:
+			out = append(out, "Kvvvvv")
+		}
+	}
 	return out
 }
 
